@@ -90,6 +90,7 @@ func sliceAccess() *slice {
 		Prop(TObj, "N", TAny, true), Prop(TObj, "Next", TObj, true),
 		Prop(TMap, "a", TInt, false), Prop(TAnyMap, "s", TAny, false),
 		Method(TObj, "Get", TInt, false), Method(TObj, "Plus", TInt, false, TInt), Method(TObj, "Title", TStr, false),
+		Method(TObj, "Label", TStr, false), Method(TObj, "Label", TAny, true), Method(TObj, "Get", TAny, true),
 		Call("Sum", TInt), Call("Sum", TInt, TInt), Call("Sum", TInt, TInt, TInt),
 		Call("Fast", TAny), Call("Fast", TAny, TInt), Call("Fast", TAny, TStr, TInt),
 		Call("FnInc", TInt, TInt), Call("Add", TInt, TInt, TInt), Call("Cat", TStr, TStr, TStr), Call("IsNil", TBool, TNil), Call("IsNil", TBool, TObj),
@@ -228,6 +229,7 @@ func sliceKinds() *slice {
 		Var("I", TInt), Var("H", TInt), Var("F", TFloat), Var("HF", TFloat), Var("I8", TI8), Var("U8", TU8), Var("I64", TI64), Var("F32", TF32), Var("U", TU),
 		Lit("1", TInt, 1), Lit("2", TInt, 2), Lit("0.5", TFloat, 0.5), Lit("[1, 2]", TIntArr, []int{1, 2}), Lit("[0, 200]", TIntArr, []int{0, 200}),
 		Var("B", TBool), CondMixed(TU8, TInt, TAny), CondMixed(TI8, TFloat, TAny), Un("not", TBool, TBool),
+		Lit("2.0", TFloat, 2.0), ArrAs(TAnyArr, TInt, TFloat), ArrAs(TAnyArr, TFloat, TInt), ArrAs(TAnyArr, TI8, TInt, TFloat),
 	}
 	nums := []Ty{TInt, TFloat, TI8, TU8, TI64, TF32, TU}
 	rank := map[Ty]int{TU: 0, TU8: 1, TInt: 5, TI8: 6, TI64: 9, TF32: 10, TFloat: 11}
@@ -245,7 +247,7 @@ func sliceKinds() *slice {
 		}
 	}
 	rules = append(rules, Bin("==", TAny, TInt, TBool), Bin("in", TAny, TIntArr, TBool))
-	return &slice{name: "kinds", g: NewGrammar(rules), tops: []NT{nt(TBool), nt(TInt), nt(TFloat), nt(TI8), nt(TU8), nt(TI64), nt(TF32), nt(TU)},
+	return &slice{name: "kinds", g: NewGrammar(rules), tops: []NT{nt(TBool), nt(TInt), nt(TFloat), nt(TI8), nt(TU8), nt(TI64), nt(TF32), nt(TU), nt(TAnyArr)},
 		modes: lib.AllModes, maxN: map[string]int{"quick": 5, "thorough": 6}}
 }
 
